@@ -211,15 +211,30 @@ def real_cases(ctx, rng, nseeds):
             tr = outcome(root.traverse, path)
             step = root
             ok = True
+            nodes = [root]
             for v, h in comps:
                 st = outcome(step.child, v + (2 ** 31 if h else 0))
                 if st[0] != "ok":
                     ok = False
                     break
                 step = st[1]
+                nodes.append(step)
             cases.append({"id": "p%d.%d" % (si, pi), "kind": "path", "path": T(path), "res": tr[0], "text": T(tr[1].xprv()) if tr[0] == "ok" else [],
                           "stepwise_text": T(step.xprv()) if ok and pi != 3 else [], "indexes": [B((v + (2 ** 31 if h else 0)).to_bytes(4, "big")) for v, h in comps] if pi != 3 else []})
             ctx.nontriv(("path", depth, mark, m0))
+            # the same walk started from a key that is itself derived (depth, parent fingerprint and child number of the result
+            # are those of the whole path from the root), private and public side, for every split of the path
+            if ok and pi != 3 and depth >= 2:
+                for j in range(1, depth):
+                    rest = m0 + "".join("/%d%s" % (v, mark if h else "") for v, h in comps[j:])
+                    t2 = outcome(nodes[j].traverse, rest)
+                    cases.append({"id": "pm%d.%d.%d" % (si, pi, j), "kind": "eq", "a": T(t2[1].xprv()) if t2[0] == "ok" else [0], "b": T(step.xprv()),
+                                  "what": "traverse-from-a-derived-key-differs-from-stepwise-derivation"})
+                    if not any(h for _, h in comps[j:]):
+                        t3 = outcome(nodes[j].pub.traverse, rest)
+                        cases.append({"id": "pmp%d.%d.%d" % (si, pi, j), "kind": "eq", "a": T(t3[1].xpub()) if t3[0] == "ok" else [0], "b": T(step.xpub()),
+                                      "what": "public-traverse-from-a-derived-key-differs-from-stepwise-derivation"})
+                    ctx.nontriv(("path-from-derived", j, depth - j))
             # public side: same verdict as private for non-hardened paths, refusal for hardened ones
             if pi != 3:
                 ptr = outcome(root.pub.traverse, path)
